@@ -6,7 +6,7 @@
 
 package httpserver
 
-//@ unit listener_timeouts props=C17 filter=`httpserver\.(makeHTTPServerWithTimeouts|stricterTimeout)$`
+//@ unit listener_timeouts frames=on props=C17 filter=`httpserver\.(makeHTTPServerWithTimeouts|stricterTimeout)$`
 //@ func stricterTimeout
 //@   pure
 //@   ensures result == (a != 0 && (b == 0 || a < b))
@@ -40,7 +40,7 @@ package httpserver
 //@   loop 1 invariant min.IdleTimeoutSet ==> exists(k, 0, #i, group[k].Timeouts.IdleTimeoutSet && min.IdleTimeout == group[k].Timeouts.IdleTimeout)
 //@   loop 1 invariant forall(k, 0, #i, group[k].Timeouts.IdleTimeoutSet ==> (min.IdleTimeout == group[k].Timeouts.IdleTimeout || (min.IdleTimeout != 0 && (group[k].Timeouts.IdleTimeout == 0 || min.IdleTimeout <= group[k].Timeouts.IdleTimeout))))
 
-//@ unit listener_header_limit props=C17 filter=`httpserver\.makeHTTPServerWithHeaderLimit$`
+//@ unit listener_header_limit frames=on props=C17 filter=`httpserver\.makeHTTPServerWithHeaderLimit$`
 //@ // the shared request-header limit is the strictest (smallest) value any co-hosted site sets; 0 means "not set"
 //@ define hlim(k int) int64 = group[k].Limits.MaxRequestHeaderSize
 //@ func makeHTTPServerWithHeaderLimit
@@ -54,7 +54,7 @@ package httpserver
 //@   loop 1 invariant (min == 0) == forall(k, 0, #i, hlim(k) == 0)
 //@   loop 1 invariant min > 0 ==> (exists(k, 0, #i, hlim(k) == min) && forall(k, 0, #i, hlim(k) > 0 ==> min <= hlim(k)))
 
-//@ unit response_buffer props=C12 filter=`httpserver\.(ResponseBuffer\)\.(WriteHeader|Write|Buffered)|forcedStatusCodeWriter\)\.WriteHeader)$`
+//@ unit response_buffer frames=on props=C12 filter=`httpserver\.(ResponseBuffer\)\.(WriteHeader|Write|Buffered)|forcedStatusCodeWriter\)\.WriteHeader)$`
 //@ // the buffering writer used by `templates`: the header of the real writer is committed at most once, with the status the
 //@ // handler below chose; a buffered response is later sent with exactly that status (forcedStatusCodeWriter), whatever
 //@ // status http.ServeContent passes.
@@ -89,7 +89,7 @@ package httpserver
 //@   ensures [commit_at_most_once] wh <= old(wh) + 1 && (old(rb.wroteHeader) ==> wh == old(wh))
 //@   ensures [implicit_200] !old(rb.wroteHeader) ==> rb.status == 200
 
-//@ unit redirect_handler props=C15 filter=`httpserver\.redirPlaintextHost\$1\$1$`
+//@ unit redirect_handler frames=on props=C15 filter=`httpserver\.redirPlaintextHost\$1\$1$`
 //@ // the handler of a synthesised HTTP site: a permanent redirect to https on the same host (port stripped, the configured
 //@ // HTTPS port appended unless it is the default), same request URI (escaped path and query exactly as received)
 //@ extern (*net/url.URL).RequestURI
@@ -166,7 +166,7 @@ package httpserver
 //@   loop 1 invariant forall(k, 1, #i + 1, !has(t.edges, cand(host, k)))
 //@   loop 1 invariant !has(t.edges, host)
 
-//@ unit replacer props=C20,C19 filter=`replacer\)\.Replace$`
+//@ unit replacer frames=on props=C20,C19 filter=`replacer\)\.Replace$`
 //@ extern strings.Index
 //@   pure
 //@   ensures result == -1 || (0 <= result && result + len(substr) <= len(s))
@@ -226,7 +226,7 @@ package httpserver
 //@   loop 1 invariant forall(k, len(old(allConfigs)), len(allConfigs), srcOK(redirSource(allConfigs[k])))
 //@   loop 1 invariant [inv_not_http] forall(k, len(old(allConfigs)), len(allConfigs), srcNotHTTP(redirSource(allConfigs[k])))
 
-//@ unit recorder props=C20,C12 filter=`ResponseRecorder\)\.(Write|WriteHeader)$`
+//@ unit recorder frames=on props=C20,C12 filter=`ResponseRecorder\)\.(Write|WriteHeader)$`
 //@ func (*ResponseRecorder).WriteHeader
 //@   requires r != nil && r.ResponseWriterWrapper != nil
 //@   modifies ResponseRecorder.status
@@ -239,7 +239,7 @@ package httpserver
 //@   ensures [size_err] result1 != nil ==> r.size == old(r.size)
 //@   ensures [status_kept] r.status == old(r.status)
 
-//@ unit match_path props=C01 filter=`vhostTrie\)\.matchPath$`
+//@ unit match_path frames=on props=C01 filter=`vhostTrie\)\.matchPath$`
 //@ spec walk(t *vhostTrie, s string, k int) *vhostTrie
 //@ spec best(t *vhostTrie, s string, k int) *vhostTrie
 //@ axiom (t *vhostTrie, s string) walk(t, s, 0) == t
@@ -301,7 +301,7 @@ package httpserver
 //@   at call invoke:(io.Reader).Read#1 do blen(c.buf) = blen(c.buf) + result0
 //@   ensures [buffer_invariant] (!old(c.readHello) && !c.readHello && err == nil) ==> blen(c.buf) == old(blen(c.buf)) + n
 
-//@ unit trie_match props=C01 filter=`vhostTrie\)\.Match$`
+//@ unit trie_match frames=on props=C01 filter=`vhostTrie\)\.Match$`
 //@ func (*vhostTrie).splitHostPath
 //@   pure
 //@ func (*vhostTrie).matchHost
@@ -326,7 +326,7 @@ package httpserver
 //@   loop 1 invariant (t.matchHost(H()) == nil && branch == nil) ==> forall(i, 0, #i, br(i) == nil)
 //@   loop 1 invariant (t.matchHost(H()) == nil && branch != nil) ==> exists(j, 0, #i, branch == br(j) && forall(i, 0, j, br(i) == nil))
 
-//@ unit serve_http_routing props=C01,C06,C12 filter=`httpserver\.Server\)\.serveHTTP$`
+//@ unit serve_http_routing frames=on props=C01,C06,C12 filter=`httpserver\.Server\)\.serveHTTP$`
 //@ ghost chainCalls int
 //@ ghost notFound int
 //@ extern invoke:(github.com/tmpim/casket/caskethttp/httpserver.Handler).ServeHTTP
@@ -365,7 +365,7 @@ package httpserver
 //@   ensures [strict_sni_bare] (!splitOK(old(r.Host)) && strictMismatch(old(r.Host))) ==> (chainCalls == old(chainCalls) && (result0 == 403 || result0 == 0))
 //@   ensures [no_site_404] (splitOK(old(r.Host)) && vh(splitHost(old(r.Host))) == nil) ==> chainCalls == old(chainCalls)
 
-//@ unit auto_https props=C15 filter=`httpserver\.(enableAutoHTTPS|markQualifiedForAutoHTTPS)$`
+//@ unit auto_https frames=on props=C15 filter=`httpserver\.(enableAutoHTTPS|markQualifiedForAutoHTTPS)$`
 //@ extern github.com/caddyserver/certmagic.SubjectQualifiesForPublicCert
 //@   pure
 //@ extern github.com/tmpim/casket/caskettls.SetDefaultTLSParams
@@ -410,7 +410,7 @@ package httpserver
 //@   loop 3 invariant 0 <= i && i <= numCurves && len(info.Curves) == numCurves && l == 2*numCurves && len(d) >= l - 2*i && length <= len(data) && length == l + 2
 //@   loop 3 decreases numCurves - i
 
-//@ unit path_matches props=C03 filter=`httpserver\.Path\)\.Matches$`
+//@ unit path_matches frames=on props=C03 filter=`httpserver\.Path\)\.Matches$`
 //@ extern path.Clean
 //@   pure
 //@ extern strings.ToLower
@@ -428,7 +428,7 @@ package httpserver
 //@   ensures [prefix_of_normalised_sensitive] (base != "/" && base != "" && CaseSensitivePath) ==> result == strings.HasPrefix(norm(p), norm(base))
 //@   ensures [prefix_of_normalised_folded] (base != "/" && base != "" && !CaseSensitivePath) ==> result == strings.HasPrefix(strings.ToLower(norm(p)), strings.ToLower(norm(base)))
 
-//@ unit mitm_heuristics props=C19 filter=`rawHelloInfo\)\.(looksLike[A-Za-z]+|advertisesHeartbeatSupport)$|httpserver\.(assertPresenceAndOrdering|hasGreaseCiphers)$`
+//@ unit mitm_heuristics frames=on props=C19 filter=`rawHelloInfo\)\.(looksLike[A-Za-z]+|advertisesHeartbeatSupport)$|httpserver\.(assertPresenceAndOrdering|hasGreaseCiphers)$`
 //@ // zero-annotation safety sweep: only the generated run-time-check obligations (index, slice, division, explicit panic)
 //@ func assertPresenceAndOrdering
 //@   loop 1 invariant j >= 0
@@ -444,7 +444,7 @@ package httpserver
 //@ func DefaultLogRoller
 //@   ensures result != nil
 
-//@ unit peer_input_sweep props=C19 files=replacer.go,mitm.go,path.go nilchecks=on nonnil_params=on exclude=`rawHelloInfo\)\.|parseRawClientHello$|clientHelloConn\)\.Read$|replacer\)\.Replace$|assertPresenceAndOrdering$|hasGreaseCiphers$|Path\)\.Matches$` filter=`.`
+//@ unit peer_input_sweep frames=on props=C19 files=replacer.go,mitm.go,path.go nilchecks=on nonnil_params=on exclude=`rawHelloInfo\)\.|parseRawClientHello$|clientHelloConn\)\.Read$|replacer\)\.Replace$|assertPresenceAndOrdering$|hasGreaseCiphers$|Path\)\.Matches$` filter=`.`
 //@ // everything else in the files that handle peer-controlled bytes (placeholders, User-Agent heuristics, path helpers): safety sweep
 //@ use @verif/specs/stdlib.spec:stdlib
 //@ use @verif/specs/stdlib.spec:nethttp_api
